@@ -212,8 +212,14 @@ def run(run):
                     add({"ev": "BpExact", "a": a, "p12": p12, "q12": q12, "raised": raised}, "BeliefPropagationDecoder", {"arctanh": arct, "graph": "tree"})
                     run.case(("bp-exact", n, rr, rep, arct, tuple(a)), nontrivial=any(a))
     # ---------------------------------------------------------------- min-sum rule on integers
-    for (n, rr) in ([(6, 3), (7, 3)] if quick else [(5, 2), (6, 3), (7, 3), (8, 4)]):
-        H = sparse_H(rng, n, rr)
+    # random sparse graphs, and fixed graphs whose checks have degree 2 (alone and next to wider checks): a degree-2 check passes the
+    # other edge's message on, and the scaling / offset must be applied to it as to any other check
+    graphs = [sparse_H(rng, n, rr) for (n, rr) in ([(6, 3), (7, 3)] if quick else [(5, 2), (6, 3), (7, 3), (8, 4)])]
+    graphs += [[[1, 1, 0, 0, 0, 0], [0, 1, 1, 1, 0, 0], [0, 0, 0, 1, 1, 1]], [[1, 1, 0, 0, 0], [0, 1, 1, 0, 0], [0, 0, 1, 1, 0], [0, 0, 0, 1, 1]]]
+    if not quick:
+        graphs += [[[1, 1, 0, 0, 0, 0, 0], [1, 0, 1, 1, 1, 0, 0], [0, 0, 0, 0, 1, 1, 0], [0, 0, 1, 0, 0, 1, 1]]]
+    for H in graphs:
+        n, rr = len(H[0]), len(H)
         enc = E.LDPCCodeEncoder(check_matrix=torch.tensor(H, dtype=torch.int64))
         Hm = [[int(v) for v in row] for row in enc.check_matrix.tolist()]
         add({"ev": "Code", "n": n, "H": Hm, "enum": False}, "code", {"code": "LDPC(%dx%d)" % (rr, n)})
@@ -258,7 +264,7 @@ def run(run):
     run.sample(next(e for e in evs if e["ev"] == "Wagner"))
     run.sample(next(e for e in evs if e["ev"] == "BpExact"))
     run.sample(next(e for e in evs if e["ev"] == "MinSum"))
-    if not mism and not run.only:
+    if not run.only and not [m for m in mism if m[1] <= 30]:        # the self-test slice (the first 30 events) was accepted
         def corrupt(ev2):
             i = next(i for i, e in enumerate(ev2) if e["ev"] == "Clean" and len(e["out"]) >= 1)
             ev2[i]["out"] = [1 - ev2[i]["out"][0]] + ev2[i]["out"][1:]
